@@ -53,6 +53,10 @@ type Op struct {
 	CP   int    `json:"cp,omitempty"` // candidates / clean: checkpoint name, -1 = ""
 	File int    `json:"file,omitempty"` // rf: chain position (1 = base ... head) whose descriptors are unusable
 	Fail bool   `json:"fail,omitempty"` // clean: the sync agent answers the coalesce with a failure
+	// resize: how the new size (NB blocks = 4*NB KiB) is spelled: "" plain decimal byte count, "int64" the int64
+	// variant of Replica.Resize, "m" a decimal fraction of MiB ("0.046875m"), otherwise a suffix appended to the
+	// number of KiB ("k", "K", "kb", "KiB", " k", ...; units.RAMInBytes: binary multipliers, case-insensitive)
+	Spell string `json:"spell,omitempty"`
 }
 
 type Case struct {
@@ -412,7 +416,18 @@ func (r *runner) do(op Op) (res string, data []int64, names []int, sizes []int64
 		types.ShouldPunchHoles = op.B
 		return "ok", nil, nil, nil, ""
 	case "resize":
-		return rc(s.Resize(strconv.FormatInt(op.NB*blk, 10))), nil, nil, nil, ""
+		switch op.Spell {
+		case "":
+			return rc(s.Resize(strconv.FormatInt(op.NB*blk, 10))), nil, nil, nil, ""
+		case "int64":
+			return rc(s.Replica().Resize(op.NB * blk)), nil, nil, nil, "int64"
+		case "m":
+			size := strconv.FormatFloat(float64(op.NB)/256, 'f', -1, 64) + "m"
+			return rc(s.Resize(size)), nil, nil, nil, size
+		default:
+			size := strconv.FormatInt(op.NB*blk/1024, 10) + op.Spell
+			return rc(s.Resize(size)), nil, nil, nil, size
+		}
 	case "lun":
 		return rc(s.UpdateLUNMap()), nil, nil, nil, ""
 	case "cand":
